@@ -333,6 +333,11 @@ static void emit_function(raw_ostream& o, Function& F) {
       o << "#if defined(VERIF_CBMC) && defined(VERIF_" << c.second << ")\n  { " << (F.getReturnType()->isDoubleTy() ? "double nondet_double(void); return nondet_double();" : "uint64_t nondet_u64(void); return nondet_u64();") << " }\n#endif\n";
       continue;
     }
+    if (F.getName().find(c.first) != StringRef::npos && StringRef(c.second).startswith("SKIP_") && F.getReturnType()->isVoidTy()) {
+      // skip stub (selected with -DVERIF_<NAME>): the void function does nothing; only for state that no assertion of the query reads
+      o << "#if defined(VERIF_CBMC) && defined(VERIF_" << c.second << ")\n  return;\n#endif\n";
+      continue;
+    }
     if (F.getName().find(c.first) != StringRef::npos) {
       o << "#if defined(VERIF_CBMC) && defined(VERIF_CUT_" << c.second << ")\n"
         << "  __CPROVER_assert(0, \"ENCODING-BOUND: cut function reached (" << c.second << ")\"); __CPROVER_assume(0); " << ret_zero(&F) << "\n#endif\n";
